@@ -617,6 +617,9 @@ def extract_fn(text, anchor_rx, what):
 
 
 
+ALL_REWRITES = []
+
+
 def fill_extracts(tpl, u, files, anchors, rewrites_applied=None, rewrite_key="rewrite"):
     """Replace every /*@EXTRACT:name@*/ marker of a template by text copied verbatim
     from /repo's current tree (statement slice, whole fn, or fn body)."""
@@ -641,9 +644,11 @@ def fill_extracts(tpl, u, files, anchors, rewrites_applied=None, rewrite_key="re
             raise Undecided("unknown extract kind %s" % ex["kind"])
         for rw in ex.get(rewrite_key, []):
             body, n = re.subn(rw["from"], rw["to"], body)
+            rec = {"unit": u["id"], "extract": ex["name"], "from": rw["from"], "to": rw["to"], "applied": n,
+                   "reason": rw.get("reason", "")}
+            ALL_REWRITES.append(rec)
             if rewrites_applied is not None:
-                rewrites_applied.append({"extract": ex["name"], "from": rw["from"], "to": rw["to"], "applied": n,
-                                         "reason": rw.get("reason", "")})
+                rewrites_applied.append(rec)
             if n == 0 and rw.get("required", False):
                 raise Undecided("ANCHOR-LOST %s: rewrite /%s/ no longer applies" % (u["id"], rw["from"]))
         marker = "/*@EXTRACT:%s@*/" % ex["name"]
@@ -989,6 +994,7 @@ def write_evidence(pid, tier, seed, prop, units, res, anchors, diff_hash, remove
         "canary": res.canary,
         "undecided": res.undecided,
         "mutant_self_test": res.mutants,
+        "extraction_rewrites": ALL_REWRITES,
         "refuted": [r["obligation"] for r in res.refuted],
         "known_findings_hit": known_hits,
         "overlay_diff_sha256": diff_hash,
